@@ -688,3 +688,11 @@ Proof.
   destruct (val_at_in_range k _ n Hr Hn) as [R1 R2].
   split; apply in_range_eqm; assumption.
 Qed.
+
+(* every block handed to the client for one request, first attempt or retry, is exactly the request's row *)
+Lemma push_with_retry_blocks {A} (fails : nat) (pd : A) :
+  length (push_with_retry fails pd) = S fails /\ Forall (eq [pd]) (push_with_retry fails pd).
+Proof.
+  induction fails as [|f [IH1 IH2]]; cbn; [split; [reflexivity|repeat constructor]|].
+  split; [f_equal; exact IH1|constructor; [reflexivity|exact IH2]].
+Qed.
